@@ -113,9 +113,12 @@ class RedisMessageBroker(MessageBrokerT):
         else:  # pragma: no cover
             params = self.PARAMETERS_CLASS()
 
-        reject_to = "n"  # normal queue
-        if raw_params[1] is not None:
-            reject_to = raw_params[1].decode()
+        if raw_params[1] is None:
+            # message isn't marked as being processed (e.g. it was already acked, nacked or
+            # requeued) - there is nothing to return to the queue
+            return
+
+        reject_to = raw_params[1].decode()
 
         async with self.conn.pipeline(transaction=True) as pipe:
             if reject_to == "dead":
